@@ -77,7 +77,10 @@ func buildAxes() []axis {
 		rep("7", 4000), rep("A", 4000), rep("é", 4000), rep("a", 4000), rep("7", 7089), rep("7", 7090), rep("a", 2953), rep("a", 2954), rep("\x80", 1600),
 		"A12B", "T12N", "a12b", "A+B", "AB", "A", "C$:/.+D", "A1234", "1234B", "E12E",
 		"1ñ2", "ñ1234", "12ñ", "ABC\x01", "abc\x01ABC", "CODE 39-.$/+%", "code39", "*A*", "+", "%",
-		"[)>\x1e05\x1dABC\x1e\x04", "[)>\x1e06\x1dABC\x1e\x04", rep("*", 30), rep("1A", 40), rep("\x1d", 20), "12345A", "A12345678901234567890",
+		"[)>\x1e05\x1dABC\x1e\x04", "[)>\x1e06\x1dABC\x1e\x04",
+		// macro envelopes whose body is longer in UTF-8 than in ISO-8859-1 (and bodies of other scripts)
+		"[)>\x1e05\x1d\u00e9\u00e9\u00e9\u00e9\x1e\x04", "[)>\x1e06\x1d\u00e9\u00e8\u00ea\x1e\x04", "[)>\x1e05\x1d"+rep("\u00fc", 40)+"\x1e\x04", "[)>\x1e06\x1d\u65e5\u672c\x1e\x04", "[)>\x1e05\x1d\x1e\x04", "[)>\x1e05\x1dA\u00e9\x1e\x04", "[)>\x1e05\x1d\u00e9",
+		rep("*", 30), rep("1A", 40), rep("\x1d", 20), "12345A", "A12345678901234567890",
 	)
 	var cv []val
 	for i, c := range contents {
